@@ -34,7 +34,7 @@ CHECKS = {
     ),
     "C15": dict(
         category="exploration",
-        text="Deterministic simulation of export/reload histories against a reference map path -> expected ModelProto: seeded sequences of file exports (standard/web) to three paths (existing dir, not-yet-existing subdir, relative to cwd), ir and proto exports, user edits of returned ir models, planted stale/garbage sidecars and late reloads, with parameter sizes on a 4-byte ladder around the 1 MiB spill point, 512 KiB, 4 MiB, one or two large tensors, large constants inside function and loop bodies. Odd-numbered runs inject I/O faults through a file layer that owns open/os.fdopen/write/os.remove/os.path.getsize/os.makedirs (errors, torn writes, crash-class exceptions). Oracle after every returned export: reload equals the proto of the same request after storage normalisation (bit-exact payloads), external references resolve inside the directory, web main file alone loads, ORT(file)==ORT(proto) bitwise, ir->proto byte-equal, earlier ir handles unchanged.",
+        text="Deterministic simulation of export/reload histories against a reference map path -> expected ModelProto: seeded sequences of file exports (standard/web) to five paths (existing dir, not-yet-existing subdir, relative to cwd, two names that differ from another target only by their suffix), ir and proto exports, user edits of returned ir models, planted stale/garbage sidecars and late reloads, with parameter sizes on a 4-byte ladder around the 1 MiB spill point, 512 KiB, 4 MiB, one or two large tensors, large constants inside function and loop bodies. Odd-numbered runs inject I/O faults through a file layer that owns open/os.fdopen/write/os.remove/os.path.getsize/os.makedirs (errors, torn writes, crash-class exceptions). Oracle after every returned export: reload equals the proto of the same request after storage normalisation (bit-exact payloads), external references resolve inside the directory, web main file alone loads, ORT(file)==ORT(proto) bitwise, ir->proto byte-equal, earlier ir handles unchanged, and the files delivered earlier to OTHER paths still resolve their references.",
         design_ref="§5.4",
         note="Trusted: onnx.load, onnxruntime, tmpfs semantics. After a raised export nothing is required of the files; the next successful export to that path must satisfy everything. Seeded search over histories.",
         technique="deterministic simulation: stateful export/reload machine over a fault-injecting file layer with an in-memory reference model",
